@@ -249,7 +249,8 @@ def _objective_entries():
     obj_case('abs array', lambda d: abs(d['x']) if d['how'] == 'min' else -abs(d['x']))
     for f in FRONTS:
         for state in ('unsolved', 'infeasible', 'unbounded', 'solved_then_infeasible',
-                      'solved_then_infeasible_bound', 'solved_then_infeasible_other_solver'):
+                      'solved_then_infeasible_bound', 'solved_then_infeasible_other_solver',
+                      'solved_then_infeasible_soc_solve'):
             for probe in ('model.get', 'x.get', 'x()', 'expr()', 'slice.get', 'dual', 'ldr.get',
                           'convex()'):
                 if probe in ('dual', 'ldr.get') and f == 'dro':
@@ -469,9 +470,17 @@ def run_case(spec, ctx):
         second = 'def'
         if e['state'] == 'solved_then_infeasible_other_solver':
             second = 'ort'
-        C.solve(m, second)
-        if C.optimal(m):
-            return {'status': 'skip', 'reason': 'model unexpectedly solved'}
+        if e['state'] == 'solved_then_infeasible_soc_solve':
+            # the failing call is soc_solve() (the model has no exponential cone; it is infeasible
+            # by construction, so whatever is readable afterwards is stale)
+            with warnings.catch_warnings():
+                warnings.simplefilter('ignore')
+                m.soc_solve(display=False)
+            ctx.count('failed_soc_solves')
+        else:
+            C.solve(m, second)
+            if C.optimal(m):
+                return {'status': 'skip', 'reason': 'model unexpectedly solved'}
     probes = {'model.get': lambda: m.get(), 'x.get': lambda: x.get(), 'x()': lambda: x(),
               'expr()': lambda: (2 * x + 1)(), 'slice.get': lambda: x[1:].get(),
               'dual': lambda: c.dual(), 'ldr.get': lambda: y.get(),
